@@ -268,3 +268,83 @@ def run(chk, repo):
                 ok17 = False
     chk.ob('C17.h', 'each fragment contributes gene[start:end] appended on the right', gq.where, ok17,
            f"slices taken: {got17} (expected (fragment.location.start, fragment.location.end)) / concatenation order altered", key=gq.qual + '::slice', fn=gq.qual)
+    chk.clauses.append('C17.i find_exon_index scans the exons in transcript order, returns the scan index of the exon equal to the reported block, stops early only past it, and raises otherwise')
+    exon_scan(chk, repo, 'C17.i')
+
+
+def exon_scan(chk, repo, rid):
+    """find_exon_index: the exons are scanned in transcript order, the index of the exon EQUAL to the feature is returned, the
+    scan stops early only once the exons are past the feature in scan direction (R-NEAREST: direction x comparison), and a
+    feature that is no exon raises ExonNotFoundError.  Decided from must-facts at the return / break sites."""
+    import re
+    from sa import sem
+    chk.rule(rid, 'R-NEAREST: find_exon_index returns the scan index of the equal exon; early stop only past the feature in scan direction; otherwise ExonNotFoundError', 7)
+    f = repo.func('gtf.GenomicAnnotation:GenomicAnnotation.find_exon_index')
+    chk.uses(f)
+    nf = sem.nf(repo, f)
+    lf = sem.facts_at_loops(nf)
+    loops_ = [l for l in ast.walk(nf) if isinstance(l, ast.For) and isinstance(l.iter, ast.Call) and call_name(l.iter) == 'enumerate'
+              and isinstance(l.target, ast.Tuple) and len(l.target.elts) == 2 and all(isinstance(e, ast.Name) for e in l.target.elts)]
+    seen = set()
+    if not loops_:
+        # the scan was moved / merged into a shape this rule does not read: say so, never call it a violation
+        chk.undecided(rid, 'exon scans of find_exon_index', f.where, 'no `for i, exon in enumerate(...)` scan found in find_exon_index (restructured?)',
+                      key=f"{f.qual}::strands", fn=f.qual)
+        return
+    for lp in loops_:
+        fx = lf.get(id(lp))
+        strand = None
+        for t, v in (sem.sure_literals(fx) if fx is not None else set()):
+            m = re.match(r'^(-?1) == (?:.*\.)?strand$', t)
+            if m and v:
+                strand = int(m.group(1))
+        if strand is None:
+            continue
+        seen.add(strand)
+        sg = f"strand {strand:+d}"
+        iv, ev = (e.id for e in lp.target.elts)
+        it = unparse(lp.iter.args[0]) if lp.iter.args else ''
+        start = kwarg(lp.iter, 'start') or (lp.iter.args[1] if len(lp.iter.args) > 1 else None)
+        EX = r'self\.transcripts\[transcript_id\]\.exon'
+        ok_it = bool(re.fullmatch(EX if strand == 1 else rf'reversed\({EX}\)', it)) and start is None
+        chk.ob(rid, f"{sg}: exons are scanned in transcript order, counted from 0", repo.loc(f, lp), ok_it,
+               f"{sg}: the scan runs over `{unparse(lp.iter)}`", key=f"{f.qual}::scan-order::{strand:+d}", fn=f.qual)
+        inside = {id(x) for x in ast.walk(lp)}
+        rets = [(st, sem.sure_literals(fx2)) for st, fx2 in sem.facts_where(nf, lambda st: isinstance(st, ast.Return)) if id(st) in inside and fx2 is not None]
+        eq = sem.lit(f'{ev} == feature')
+        ok_r = len(rets) >= 1 and all(isinstance(st.value, ast.Name) and st.value.id == iv and eq in lits for st, lits in rets)
+        chk.ob(rid, f"{sg}: the index returned is that of the exon equal to the feature", repo.loc(f, lp), ok_r,
+               f"{sg}: return sites {[(unparse(st.value) if st.value is not None else None, sorted(l_ for l_ in lits if ev in l_[0])) for st, lits in rets]}",
+               key=f"{f.qual}::return::{strand:+d}", fn=f.qual)
+        brks = [(st, sem.sure_literals(fx2)) for st, fx2 in sem.facts_where(nf, lambda st: isinstance(st, ast.Break)) if id(st) in inside and fx2 is not None]
+        past = sem.lit(f'{ev} > feature') if strand == 1 else sem.lit(f'{ev} < feature')
+        ok_b = all(past in lits for _st, lits in brks)
+        chk.ob(rid, f"{sg}: the scan is abandoned only when the exon is already past the feature", repo.loc(f, lp), ok_b,
+               f"{sg}: the scan breaks under {[sorted(l_ for l_ in lits if ev in l_[0]) for _st, lits in brks]} - exons behind the feature in scan direction are skipped, "
+               "so an annotated exon is reported as not found", key=f"{f.qual}::early-stop::{strand:+d}", fn=f.qual)
+    chk.ob(rid, 'both strands have their scan', f.where, seen == {1, -1}, f"scans found for strands {sorted(seen)}", key=f"{f.qual}::strands", fn=f.qual)
+    # the feature compared with the (genomic) exons is genomic: converted exactly when coordinate == 'gene', taken as is when
+    # 'genomic', anything else is refused - path-sensitive (bounded path enumeration with facts)
+    cfg_ = CFG(nf)
+    loop_ids = {cfg_.node_for(lp) for lp in loops_}
+    bad_p = None
+    n_p = 0
+    for pth in cfg_.paths(cfg_.entry, max_paths=4000):
+        ids = pth.node_ids()
+        if not (set(ids) & loop_ids):
+            continue
+        n_p += 1
+        conv = any(cfg_.nodes[i].kind == 'stmt' and isinstance(cfg_.nodes[i].ast, ast.Assign) and unparse(cfg_.nodes[i].ast.targets[0]) == 'feature'
+                   and call_name(cfg_.nodes[i].ast.value) == 'feature_coordinate_gene_to_genomic' for i in ids[:min(ids.index(x) for x in ids if x in loop_ids)])
+        g = pth.facts.known(ast.parse("coordinate == 'gene'", mode='eval').body)
+        gn = pth.facts.known(ast.parse("coordinate == 'genomic'", mode='eval').body)
+        if not ((g is True and conv) or (g is False and gn is True and not conv)):
+            bad_p = bad_p or pth
+    chk.paths += n_p
+    chk.ob(rid, "the feature is converted to genomic coordinates exactly when coordinate == 'gene'; other coordinate systems are refused", f.where,
+           n_p > 0 and bad_p is None, "a path reaches the exon scan with a feature that is not known to be genomic (gene coordinates compared with genomic exons never match)",
+           key=f"{f.qual}::coordinate", path=bad_p.describe(f.module.relpath) if bad_p else None, fn=f.qual)
+    last = nf.body[-1]
+    chk.ob(rid, 'a feature that is no exon of the transcript raises ExonNotFoundError', f.where,
+           isinstance(last, ast.Raise) and last.exc is not None and 'ExonNotFoundError' in unparse(last.exc),
+           'the function can fall off its end (returns None) instead of raising ExonNotFoundError', key=f"{f.qual}::not-found", fn=f.qual)
